@@ -2,8 +2,10 @@ package main
 
 import (
 	"fmt"
+	"go/constant"
 	"go/token"
 	"go/types"
+	"os"
 	"strings"
 
 	"golang.org/x/tools/go/ssa"
@@ -463,6 +465,227 @@ func runC05(r *Run, p *Prog) {
 			}
 		}
 		r.Ob("K10", "-", "readers were examined for state-dependent decisions", a.cursorT.Obj().Pos(), len(a.methods) > 0, "no readers")
+	})
+	r.Guard("K11", func() {
+		// a skip that does not cross line ends, tabs and comments (the line-only skipper) may precede only something
+		// optional: when what follows it is tested and its absence is a failure of the reader - no token reader or
+		// full layout skip in between - the text is accepted only in one layout
+		isLine := map[*ssa.Function]bool{}
+		for _, ls := range m.lineSkipper {
+			isLine[origFn(ls)] = true
+		}
+		for _, g := range p.FuncsOf(pkgIDL) {
+			// (a skipper folded into its callers by the reader model is not in that list)
+			rs := g.Signature.Results()
+			if !a.isCursorMethod(g) || len(g.Blocks) == 0 || m.tokens[g] != nil || origFn(g) == origFn(m.skipper) || rs.Len() > 1 {
+				continue
+			}
+			if rs.Len() == 1 {
+				if bt, ok := rs.At(0).Type().Underlying().(*types.Basic); !ok || bt.Kind() != types.Bool {
+					continue
+				}
+			}
+			if sites := a.readSites(g); len(sites) > 0 {
+				if self := a.analyseRead(sites[0]).selfLoopSet(); !self.empty() && !self.has('\n') {
+					isLine[g] = true
+				}
+			}
+		}
+		if os.Getenv("VLDEBUG") == "k11" {
+			fmt.Fprintf(os.Stderr, "K11: lineSkippers %v skipper %v\n", m.lineSkipper, m.skipper)
+		}
+		n := 0
+		// (decided on the functions as written: the pattern is local to the function that makes the skip)
+		for _, f := range p.FuncsOf(pkgIDL) {
+			if isLine[origFn(f)] || len(f.Blocks) == 0 || f.Signature.Results().Len() == 0 {
+				continue
+			}
+			res := f.Signature.Results()
+			failure := func(in ssa.Instruction) bool {
+				ret, ok := in.(*ssa.Return)
+				if !ok || len(ret.Results) == 0 {
+					return false
+				}
+				last := ret.Results[len(ret.Results)-1]
+				k, isK := last.(*ssa.Const)
+				if isErrorType(res.At(res.Len() - 1).Type()) {
+					return !(isK && k.IsNil())
+				}
+				if !isK {
+					return false
+				}
+				if k.IsNil() {
+					return true
+				}
+				if k.Value != nil && k.Value.Kind() == constant.Bool {
+					return !constant.BoolVal(k.Value)
+				}
+				return false
+			}
+			for _, b := range f.Blocks {
+				for i, in := range b.Instrs {
+					c, ok := in.(*ssa.Call)
+					if !ok || c.Call.StaticCallee() == nil || !isLine[origFn(c.Call.StaticCallee())] {
+						continue
+					}
+					n++
+					// directly after the full skipper: nothing left to skip
+					afterFull := false
+					for j := i - 1; j >= 0; j-- {
+						if pc, isCall := b.Instrs[j].(*ssa.Call); isCall {
+							afterFull = pc.Call.StaticCallee() != nil && origFn(pc.Call.StaticCallee()) == origFn(m.skipper)
+							break
+						}
+					}
+					if afterFull {
+						continue
+					}
+					reach, w := reachInstr(f, in, failure, func(x ssa.Instruction) bool {
+						xc, isCall := x.(*ssa.Call)
+						if !isCall || xc.Call.StaticCallee() == nil {
+							return false
+						}
+						g := origFn(xc.Call.StaticCallee())
+						if g == origFn(m.skipper) || m.tokens[g] != nil || m.typeReaders[g] {
+							return true
+						}
+						return a.isCursorMethod(g) && g != origFn(a.next) && !isLine[g] && (a.back == nil || g != origFn(a.back))
+					}, nil)
+					r.Ob("K11", shortName(f), "what follows a line-only layout skip is optional", c.Pos(), !reach,
+						"after a skip that stops at a tab, a line end or a comment the reader fails when the expected text does not follow at once: a mandatory token is accepted only when it stands on the same line, separated by spaces - the result depends on layout", witnessPos(p, w)...)
+				}
+			}
+		}
+		r.Stat("line_only_skips", n)
+	})
+	r.Guard("K12", func() {
+		// no rejection for a name that is not (yet) in the tree: a search of a list or table of the tree under
+		// construction whose unsuccessful outcome can only end in an error makes acceptance depend on the order of
+		// declarations (forward references, mutually recursive types). The duplicate test is the opposite: found -> error.
+		isTree := func(t types.Type) bool {
+			pt, ok := t.Underlying().(*types.Pointer)
+			if !ok {
+				return false
+			}
+			nt, ok := pt.Elem().(*types.Named)
+			if !ok || nt.Obj().Pkg() == nil || nt.Obj().Pkg().Path() != pkgIDL || types.Identical(nt, a.cursorT) {
+				return false
+			}
+			_, isStruct := nt.Underlying().(*types.Struct)
+			return isStruct
+		}
+		var treeColl func(v ssa.Value, d int) string
+		treeColl = func(v ssa.Value, d int) string {
+			if d > 4 {
+				return ""
+			}
+			switch x := v.(type) {
+			case *ssa.UnOp:
+				if x.Op != token.MUL {
+					return ""
+				}
+				if fa, ok := x.X.(*ssa.FieldAddr); ok && isTree(fa.X.Type()) {
+					switch fa.Type().Underlying().(*types.Pointer).Elem().Underlying().(type) {
+					case *types.Slice, *types.Map:
+						return fieldName(fa.X, fa.Field)
+					}
+				}
+			case *ssa.Phi:
+				for _, e := range x.Edges {
+					if s := treeColl(e, d+1); s != "" {
+						return s
+					}
+				}
+			case *ssa.MakeMap:
+				// a local table filled with names read from the input
+				for _, ref := range *x.Referrers() {
+					if mu, ok := ref.(*ssa.MapUpdate); ok {
+						if _, isK := mu.Key.(*ssa.Const); !isK {
+							return "table " + x.Name()
+						}
+					}
+				}
+			case *ssa.Slice:
+				return treeColl(x.X, d+1)
+			}
+			return ""
+		}
+		n := 0
+		seenPos := map[token.Pos]bool{}
+		for f := range BuildCallGraph(p).Reach([]*ssa.Function{origFn(m.entry)}, false) {
+			if fnPkgPath(f) != pkgIDL || f.Parent() != nil || len(f.Blocks) == 0 {
+				continue
+			}
+			res := f.Signature.Results()
+			if res.Len() == 0 || !isErrorType(res.At(res.Len()-1).Type()) {
+				continue
+			}
+			v := p.Inlined(f, nil)
+			failure := func(in ssa.Instruction) bool {
+				ret, ok := in.(*ssa.Return)
+				if !ok || len(ret.Results) == 0 {
+					return false
+				}
+				k, isK := ret.Results[len(ret.Results)-1].(*ssa.Const)
+				return !(isK && k.IsNil())
+			}
+			success := func(in ssa.Instruction) bool {
+				_, ok := in.(*ssa.Return)
+				return ok && !failure(in)
+			}
+			for _, b := range v.Blocks {
+				iff, ok := b.Instrs[len(b.Instrs)-1].(*ssa.If)
+				if !ok {
+					continue
+				}
+				var missEdge *ssa.BasicBlock
+				what := ""
+				cond, neg := iff.Cond, false
+				if u, isU := cond.(*ssa.UnOp); isU && u.Op == token.NOT {
+					cond, neg = u.X, true
+				}
+				switch x := cond.(type) {
+				case *ssa.BinOp:
+					// i < len(list): the false edge is the exhausted search
+					if x.Op == token.LSS {
+						if c, isCall := x.Y.(*ssa.Call); isCall {
+							if bi, isB := c.Call.Value.(*ssa.Builtin); isB && bi.Name() == "len" {
+								if what = treeColl(c.Call.Args[0], 0); what != "" {
+									missEdge = b.Succs[1]
+									if neg {
+										missEdge = b.Succs[0]
+									}
+								}
+							}
+						}
+					}
+				case *ssa.Extract:
+					if lk, isLk := x.Tuple.(*ssa.Lookup); isLk && lk.CommaOk && x.Index == 1 {
+						if what = treeColl(lk.X, 0); what != "" {
+							missEdge = b.Succs[1]
+							if neg {
+								missEdge = b.Succs[0]
+							}
+						}
+					}
+				}
+				if missEdge == nil {
+					continue
+				}
+				// (an exhausted search that is also the end of the reader's work - a printing or collecting loop -
+				// has no failure behind it)
+				canFail, w := reachFromBlock(v, missEdge, failure, nil)
+				canSucceed, _ := reachFromBlock(v, missEdge, success, nil)
+				if seenPos[iff.Pos()] && !(canFail && !canSucceed) {
+					continue
+				}
+				seenPos[iff.Pos()] = true
+				n++
+				r.Ob("K12", shortName(v), "a name that is not found in "+what+" is not a reason to reject", p.InstrPos(iff), !(canFail && !canSucceed),
+					"when the search of "+what+" finds nothing, every path ends in an error: a description is rejected because a name it uses has not been declared before that point - grammar-conformant descriptions with forward or mutual references are refused", witnessPos(p, w)...)
+			}
+		}
+		r.Stat("tree_searches", n)
 	})
 	r.Guard("K8", func() {
 		lower, upper, digit := rangeSet('a', 'z'), rangeSet('A', 'Z'), rangeSet('0', '9')
